@@ -110,9 +110,15 @@ class JSONStore(MutableMapping):
 
     def _update_store(self):
         # Serialise store to JSON and write the JSON to the json_store file.
+        # The JSON is written to a temporary file that then replaces the
+        # json_store file: opening json_store itself for writing truncates it,
+        # so a process that died (or a dump that failed) part way through
+        # would leave invalid JSON behind and everything stored before lost.
         try:
-            with open(self.json_store, "w") as fp:
+            temporary_name = self.json_store + ".tmp"
+            with open(temporary_name, "w") as fp:
                 json.dump(self.store, fp)
+            os.replace(temporary_name, self.json_store)
             self.logger.info("Updating JSONStore: {}".format(self.json_store))
         except IOError as e:
             raise
